@@ -1,7 +1,7 @@
 """A4.2b (structural part): the advertised size function and the byte writer of one type branch on the same predicates over
 the object's state.  (A size function that distinguishes `n == 1` while the writer distinguishes `n <= 4` advertises a
 different size than is written on the cells in between.)"""
-from astu import C, ctxt, gt_pair, eq_const, strip, walk, txt, short, stmts_of
+from astu import C, ctxt, gt_pair, eq_const, reach, reach_txt, ctext, strip, walk, txt, short, stmts_of
 import a4_twin
 from vlib.core import ob
 
